@@ -78,6 +78,25 @@ def main():
             cases += 1
             got = list(kt.MinimiserGenerator(s, w, m))
             if got != runs_spec(b, w, m): fail(what='MinimiserGenerator', seq=repr(s), w=w, m=m, expected=runs_spec(b, w, m)[:4], actual=got[:4])
+    # long strings: thousands of items from one iterator object (beyond any prefetch / block size a binding might use),
+    # lengths around powers of two so that an item count of exactly 2^n, 2^n + 1 ... occurs
+    for n in (1024, 1025, 1026, 1030, 2048, 2051, 4100, 5000, 70000):
+        for s in (''.join(rng.choice('ACGT') for _ in range(n)), ''.join(rng.choice('ACGTACGTACGTACGTN') for _ in range(n))):
+            b = s.encode('utf-8')
+            for k in (1, 3, 7):
+                if n > 6000 and k != 3: continue
+                cases += 1
+                got = list(kt.KmerGenerator(s, k))
+                want = kmers_spec(b, k)
+                if got != want:
+                    i = next((j for j in range(min(len(got), len(want))) if got[j] != want[j]), min(len(got), len(want)))
+                    fail(what='KmerGenerator on a long string', seq='<%d random bases, seed %d>' % (n, seed), k=k, items=len(got), expected_items=len(want), first_difference_at=i)
+            if n <= 6000:
+                for (w, m) in ((3, 2), (10, 4)):
+                    cases += 1
+                    got = list(kt.MinimiserGenerator(s, w, m))
+                    want = runs_spec(b, w, m)
+                    if got != want: fail(what='MinimiserGenerator on a long string', seq='<%d random bases, seed %d>' % (n, seed), w=w, m=m, items=len(got), expected_items=len(want))
     g = kt.KmerGenerator('ACGT', 4)
     for x in (0, 27, 255, 228):
         cases += 1
